@@ -401,9 +401,13 @@ Definition sub_notif_grp (t : tname) (x : topic) (uid sid : N) : topic * list ms
 
 Definition is_grp (t : tname) : bool := match t with TGrp _ => true | _ => false end.
 
+Definition is_p2p (t : tname) : bool := match t with TP2P _ _ => true | _ => false end.
+
 (* notifySubChange (topic.go:3369-3471) without the "acs" announcements (not modelled);
-   new modes None = subscription deleted *)
-Definition notify_sub_change (t : tname) (uid : N) (old_mode : N) (new_mode : option N) (skip : option N) : list msg :=
+   new modes None = subscription deleted.
+   `rep` = true: the code WITH the repair findings/C10_p2p_unmute.diff (an un-muted P2P subscription gets the
+   same "?unkn+en" status request as an un-muted group subscription); `rep` = false: the code before it. *)
+Definition notify_sub_change_gen (rep : bool) (t : tname) (uid : N) (old_mode : N) (new_mode : option N) (skip : option N) : list msg :=
   match new_mode with
   | None =>
     match t with
@@ -415,9 +419,11 @@ Definition notify_sub_change (t : tname) (uid : N) (old_mode : N) (new_mode : op
     if negb (is_presencer nm) && is_presencer old_mode then
       [pres_single_offline_offline t uid (original t uid) WOff CDis None]
     else if is_presencer nm && negb (is_presencer old_mode) then
-      (if is_grp t then pres_single_offline t uid (Some nm) WUnkn CEn None false else [])
+      (if is_grp t || (rep && is_p2p t) then pres_single_offline t uid (Some nm) WUnkn CEn None false else [])
     else []
   end.
+Definition notify_sub_change := notify_sub_change_gen true.
+Definition notify_sub_change_unrepaired := notify_sub_change_gen false.
 
 (* evictUser (topic.go:3309-3357): sessions of the user leave the topic *)
 Definition evict_user (x : topic) (uid : N) (unsub : bool) : topic * list out :=
@@ -587,7 +593,7 @@ Definition to_fg (s : state) (sid u : N) (t : tname) : state :=
 
 (* thisUserSub with an explicit mode, existing subscription (topic.go:1645-1830), p2p and groups.
    Supported: masks with J; no O unless the owner; no A in groups for non-owners. *)
-Definition want_op (s : state) (sid u : N) (t : tname) (mask : N) : state * list out :=
+Definition want_op_gen (rep : bool) (s : state) (sid u : N) (t : tname) (mask : N) : state * list out :=
   match get_top s t with
   | None => (s, [Skipped])
   | Some x =>
@@ -602,12 +608,12 @@ Definition want_op (s : state) (sid u : N) (t : tname) (mask : N) : state * list
       let mask' := if is_grp t then mask else N.lor (N.land mask ModeCP2P) mA in
       if mask' =? p_want p then (s, [Ctrl sid 304]) else
       let x1 := set_pud u (p_set_modes mask' (p_given p) p) x in
-      let ms := notify_sub_change t u (p_mode p) (Some (N.land (p_given p) mask')) (Some sid) in
+      let ms := notify_sub_change_gen rep t u (p_mode p) (Some (N.land (p_given p) mask')) (Some sid) in
       (send ms (put_top t x1 s), [Ctrl sid 200])
   end.
 
 (* anotherUserSub (topic.go:1839-2037) with an explicit mode; masks without O *)
-Definition given_op (s : state) (sid u : N) (t : tname) (v mask : N) : state * list out :=
+Definition given_op_gen (rep : bool) (s : state) (sid u : N) (t : tname) (v mask : N) : state * list out :=
   match get_top s t with
   | None => (s, [Skipped])
   | Some x =>
@@ -623,7 +629,7 @@ Definition given_op (s : state) (sid u : N) (t : tname) (v mask : N) : state * l
         else if is_grp t && (t_owner x =? v) then (s, [Ctrl sid 403])
         else
           let x1 := set_pud v (p_set_modes (p_want p) mask' p) x in
-          let ms := notify_sub_change t v (p_mode p) (Some (N.land mask' (p_want p))) (Some sid) in
+          let ms := notify_sub_change_gen rep t v (p_mode p) (Some (N.land mask' (p_want p))) (Some sid) in
           let x2 := if is_joiner mask' then x1 else fst (evict_user x1 v false) in
           (send ms (put_top t x2 s), [Ctrl sid 200])
       else if negb (is_grp t) then (s, [Skipped])
@@ -632,7 +638,7 @@ Definition given_op (s : state) (sid u : N) (t : tname) (v mask : N) : state * l
         let want := match aget N.eqb v (t_users x) with Some q => p_want q | None => N.land ModeCAuth mask' end in
         if negb (is_joiner want) then (s, [Ctrl sid 403]) else
         let x1 := set_pud v (mkPud want mask' 0 false) x in
-        let ms := notify_sub_change t v 0 (Some (N.land mask' want)) (Some sid) in
+        let ms := notify_sub_change_gen rep t v 0 (Some (N.land mask' want)) (Some sid) in
         let x2 := if is_joiner mask' then x1 else fst (evict_user x1 v false) in
         (send ms (put_top t x2 s), [Ctrl sid 200])
   end.
@@ -705,7 +711,7 @@ Definition sess_user (s : state) (sid : N) : option N :=
 Definition sess_bkg (s : state) (sid : N) : bool :=
   match get_sess s sid with Some i => ss_bkg i | None => false end.
 
-Definition step (s : state) (o : op) : state * list out :=
+Definition step_gen (rep : bool) (s : state) (o : op) : state * list out :=
   match o with
   | New sid u g bkg =>
     match open_sess s sid u bkg, get_top s (TGrp g) with
@@ -757,7 +763,7 @@ Definition step (s : state) (o : op) : state * list out :=
   | Want sid r mask =>
     match sess_user s sid with
     | None => (s, [Skipped])
-    | Some u => match r with RMe => (s, [Skipped]) | _ => want_op s sid u (resolve u r) mask end
+    | Some u => match r with RMe => (s, [Skipped]) | _ => want_op_gen rep s sid u (resolve u r) mask end
     end
   | Given sid r v mask =>
     match sess_user s sid with
@@ -765,8 +771,8 @@ Definition step (s : state) (o : op) : state * list out :=
     | Some u =>
       match r with
       | RMe => (s, [Skipped])
-      | _ => if u =? v then want_op s sid u (resolve u r) mask   (* replySetSub: target = self *)
-             else given_op s sid u (resolve u r) v mask
+      | _ => if u =? v then want_op_gen rep s sid u (resolve u r) mask   (* replySetSub: target = self *)
+             else given_op_gen rep s sid u (resolve u r) v mask
       end
     end
   | Evict sid r v =>
@@ -795,11 +801,18 @@ Definition step (s : state) (o : op) : state * list out :=
     end
   end.
 
-Fixpoint run (s : state) (h : list op) : state * list out :=
+Definition step := step_gen true.                (* the code with the repair *)
+Definition step_unrepaired := step_gen false.    (* the code before findings/C10_p2p_unmute.diff *)
+Definition want_op := want_op_gen true.
+Definition given_op := given_op_gen true.
+
+Fixpoint run_gen (rep : bool) (s : state) (h : list op) : state * list out :=
   match h with
   | [] => (s, [])
-  | o :: r => let '(s1, o1) := step s o in let '(s2, o2) := run s1 r in (s2, o1 ++ o2)
+  | o :: r => let '(s1, o1) := step_gen rep s o in let '(s2, o2) := run_gen rep s1 r in (s2, o1 ++ o2)
   end.
+Definition run := run_gen true.
+Definition run_unrepaired := run_gen false.
 
 Definition reach (s : state) : Prop := exists h, s = fst (run init h).
 
